@@ -696,8 +696,9 @@ public:
 			_ref.set_instance(n);
 			return true;
 		}
+		/* no private data of requested size available */
 		_ref.set_instance(c);
-		return true;
+		return false;
 	}
 	bool resize(long len)
 	{
